@@ -7,6 +7,7 @@ import (
 	"fmt"
 	"io"
 	"math/rand"
+	"os"
 	"testing"
 	"time"
 
@@ -42,7 +43,7 @@ type vtC18Evictor struct {
 	node  map[string]int64
 }
 
-func (e *vtC18Evictor) Filter(pod *corev1.Pod) bool { return pod.Annotations[vtC18AnnEvictable] == "1" }
+func (e *vtC18Evictor) Filter(pod *corev1.Pod) bool            { return pod.Annotations[vtC18AnnEvictable] == "1" }
 func (e *vtC18Evictor) PreEvictionFilter(pod *corev1.Pod) bool { return true }
 func (e *vtC18Evictor) Evict(ctx context.Context, pod *corev1.Pod, opts framework.EvictOptions) bool {
 	var id int64
@@ -106,63 +107,120 @@ func vtC18DetCode(c *gocache.Cache, name string) int64 {
 	return s*1000000 + int64(cnt.ConsecutiveAbnormalities)*1000 + int64(cnt.ConsecutiveNormalities)
 }
 
+const vtC18PoolLabel = "verif/pool"
+
+// the NodeSelector spellings of the wire format (coq/C18/Extract.v)
+func vtC18Selector(kind int64) *metav1.LabelSelector {
+	req := func(op metav1.LabelSelectorOperator, vals ...string) *metav1.LabelSelector {
+		return &metav1.LabelSelector{MatchExpressions: []metav1.LabelSelectorRequirement{{Key: vtC18PoolLabel, Operator: op, Values: vals}}}
+	}
+	switch kind {
+	case 0:
+		return nil
+	case 1:
+		return &metav1.LabelSelector{}
+	case 2:
+		return &metav1.LabelSelector{MatchLabels: map[string]string{vtC18PoolLabel: "a"}}
+	case 3:
+		return &metav1.LabelSelector{MatchLabels: map[string]string{vtC18PoolLabel: "b"}}
+	case 4:
+		return req(metav1.LabelSelectorOpExists)
+	case 5:
+		return req(metav1.LabelSelectorOpIn, "a")
+	case 6:
+		return req(metav1.LabelSelectorOpIn, "a", "b")
+	case 7:
+		return req(metav1.LabelSelectorOpNotIn, "a")
+	case 8:
+		return req(metav1.LabelSelectorOpDoesNotExist)
+	case 9:
+		return &metav1.LabelSelector{MatchLabels: map[string]string{}, MatchExpressions: []metav1.LabelSelectorRequirement{}}
+	}
+	// not generated: a selector that matches nothing
+	return req(metav1.LabelSelectorOpIn, "none")
+}
+
+func vtC18SelMatch(kind, label int64) bool {
+	switch kind {
+	case 0, 1, 9:
+		return true
+	case 2, 5:
+		return label == 1
+	case 3:
+		return label == 2
+	case 4, 6:
+		return label != 0
+	case 7:
+		return label != 1
+	case 8:
+		return label == 0
+	}
+	return false
+}
+
 func vtC18Exec(in []int64) []int64 {
 	pos := 0
 	next := func() int64 { v := in[pos]; pos++; return v }
-	numberOfNodes, dry, fit, sel, dev, anom, k, kn := next(), next(), next(), next(), next(), next(), next(), next()
-	var low, high, plow, phigh deschedulerconfig.ResourceThresholds
-	for d := 0; d < 3; d++ {
-		l, h, pl, ph := next(), next(), next(), next()
-		if l != -1 {
-			if low == nil {
-				low, high = deschedulerconfig.ResourceThresholds{}, deschedulerconfig.ResourceThresholds{}
+	numberOfNodes, dry, fit, paused := next(), next(), next(), next()
+	npools := int(next())
+	pools := make([]deschedulerconfig.LowNodeLoadNodePool, npools)
+	for pi := 0; pi < npools; pi++ {
+		sel, dev, anom, k, kn := next(), next(), next(), next(), next()
+		var low, high, plow, phigh deschedulerconfig.ResourceThresholds
+		for d := 0; d < 3; d++ {
+			l, h, pl, ph := next(), next(), next(), next()
+			if l != -1 {
+				if low == nil {
+					low, high = deschedulerconfig.ResourceThresholds{}, deschedulerconfig.ResourceThresholds{}
+				}
+				low[vtC18Dims[d]], high[vtC18Dims[d]] = deschedulerconfig.Percentage(l), deschedulerconfig.Percentage(h)
 			}
-			low[vtC18Dims[d]], high[vtC18Dims[d]] = deschedulerconfig.Percentage(l), deschedulerconfig.Percentage(h)
-		}
-		if pl != -1 {
-			if plow == nil {
-				plow, phigh = deschedulerconfig.ResourceThresholds{}, deschedulerconfig.ResourceThresholds{}
+			if pl != -1 {
+				if plow == nil {
+					plow, phigh = deschedulerconfig.ResourceThresholds{}, deschedulerconfig.ResourceThresholds{}
+				}
+				plow[vtC18Dims[d]], phigh[vtC18Dims[d]] = deschedulerconfig.Percentage(pl), deschedulerconfig.Percentage(ph)
 			}
-			plow[vtC18Dims[d]], phigh[vtC18Dims[d]] = deschedulerconfig.Percentage(pl), deschedulerconfig.Percentage(ph)
 		}
-	}
-	weights := map[corev1.ResourceName]int64{}
-	for d := 0; d < 3; d++ {
-		weights[vtC18Dims[d]] = next()
+		weights := map[corev1.ResourceName]int64{}
+		for d := 0; d < 3; d++ {
+			weights[vtC18Dims[d]] = next()
+		}
+		pool := deschedulerconfig.LowNodeLoadNodePool{
+			Name:                   fmt.Sprintf("pool%d", pi),
+			UseDeviationThresholds: dev != 0,
+			LowThresholds:          low,
+			HighThresholds:         high,
+			ProdLowThresholds:      plow,
+			ProdHighThresholds:     phigh,
+			ResourceWeights:        weights,
+			NodeSelector:           vtC18Selector(sel),
+		}
+		if anom != 0 {
+			pool.AnomalyCondition = &deschedulerconfig.LoadAnomalyCondition{
+				Timeout:                  metav1.Duration{Duration: time.Hour},
+				ConsecutiveAbnormalities: uint32(k),
+				ConsecutiveNormalities:   uint32(kn),
+			}
+		}
+		pools[pi] = pool
 	}
 	n := int(next())
 	type nstat struct {
-		capc, capm, capp int64
-		member           bool
+		capc, capm, capp       int64
+		label                  int64
+		rawk, rawc, rawm, rawp int64
 	}
 	ns := make([]nstat, n)
 	nodeIdx := map[string]int64{}
 	for i := range ns {
-		ns[i] = nstat{next(), next(), next(), next() != 0}
+		ns[i] = nstat{next(), next(), next(), next(), next(), next(), next(), next()}
 		nodeIdx[fmt.Sprintf("n%02d", i+1)] = int64(i + 1)
 	}
 
-	pool := deschedulerconfig.LowNodeLoadNodePool{
-		Name:                   "pool",
-		UseDeviationThresholds: dev != 0,
-		LowThresholds:          low,
-		HighThresholds:         high,
-		ProdLowThresholds:      plow,
-		ProdHighThresholds:     phigh,
-		ResourceWeights:        weights,
-	}
-	if sel != 0 {
-		pool.NodeSelector = &metav1.LabelSelector{MatchLabels: map[string]string{"verif/pool": "a"}}
-	}
-	if anom != 0 {
-		pool.AnomalyCondition = &deschedulerconfig.LoadAnomalyCondition{
-			Timeout:                  metav1.Duration{Duration: time.Hour},
-			ConsecutiveAbnormalities: uint32(k),
-			ConsecutiveNormalities:   uint32(kn),
-		}
-	}
 	expiration := int64(180)
 	args := &deschedulerconfig.LowNodeLoadArgs{
+		Paused:                      paused != 0,
 		NumberOfNodes:               int32(numberOfNodes),
 		DryRun:                      dry != 0,
 		NodeFit:                     fit != 0,
@@ -172,7 +230,7 @@ func vtC18Exec(in []int64) []int64 {
 			{Name: "sel", Selector: &metav1.LabelSelector{MatchLabels: map[string]string{"verif/sel": "1"}}},
 		},
 		DetectorCacheTimeout: &metav1.Duration{Duration: time.Hour},
-		NodePools:            []deschedulerconfig.LowNodeLoadNodePool{pool},
+		NodePools:            pools,
 	}
 
 	var calls []int64
@@ -211,8 +269,26 @@ func vtC18Exec(in []int64) []int64 {
 					corev1.ResourcePods:   *resource.NewQuantity(ns[i].capp, resource.DecimalSI),
 				}},
 			}
-			if ns[i].member {
-				node.Labels["verif/pool"] = "a"
+			switch ns[i].label {
+			case 1:
+				node.Labels[vtC18PoolLabel] = "a"
+			case 2:
+				node.Labels[vtC18PoolLabel] = "b"
+			}
+			// resource amplification: the raw allocatable is recorded in an annotation
+			switch ns[i].rawk {
+			case 1:
+				extension.SetNodeRawAllocatable(node, corev1.ResourceList{
+					corev1.ResourceCPU:    *resource.NewMilliQuantity(ns[i].rawc, resource.DecimalSI),
+					corev1.ResourceMemory: *resource.NewQuantity(ns[i].rawm, resource.BinarySI),
+					corev1.ResourcePods:   *resource.NewQuantity(ns[i].rawp, resource.DecimalSI),
+				})
+			case 2:
+				extension.SetNodeRawAllocatable(node, corev1.ResourceList{
+					corev1.ResourceCPU: *resource.NewMilliQuantity(ns[i].rawc, resource.DecimalSI),
+				})
+			case 3:
+				node.Annotations = map[string]string{extension.AnnotationNodeRawAllocatable: "{\"cpu\":"}
 			}
 			nodes[i] = node
 			nm := &slov1alpha1.NodeMetric{
@@ -227,6 +303,7 @@ func vtC18Exec(in []int64) []int64 {
 					},
 				},
 			}
+			var own []*slov1alpha1.PodMetricInfo
 			for j := 0; j < np; j++ {
 				id, nsi, prio, met, cpu, mem, filt, evok := next(), next(), next(), next(), next(), next(), next(), next()
 				prio32 := int32(prio)
@@ -249,7 +326,7 @@ func vtC18Exec(in []int64) []int64 {
 				}
 				handle.pods[name] = append(handle.pods[name], pod)
 				if met != 0 {
-					nm.Status.PodsMetric = append(nm.Status.PodsMetric, &slov1alpha1.PodMetricInfo{
+					own = append(own, &slov1alpha1.PodMetricInfo{
 						Name: pod.Name, Namespace: pod.Namespace,
 						PodUsage: slov1alpha1.ResourceMap{ResourceList: corev1.ResourceList{
 							corev1.ResourceCPU:    *resource.NewMilliQuantity(cpu, resource.DecimalSI),
@@ -258,6 +335,18 @@ func vtC18Exec(in []int64) []int64 {
 					})
 				}
 			}
+			// further podsMetric entries (pods no longer on the node, second entries), listed first
+			for nx := int(next()); nx > 0; nx-- {
+				nsi, id, cpu, mem := next(), next(), next(), next()
+				nm.Status.PodsMetric = append(nm.Status.PodsMetric, &slov1alpha1.PodMetricInfo{
+					Name: fmt.Sprintf("p%04d", id), Namespace: vtC18Ns[nsi&3],
+					PodUsage: slov1alpha1.ResourceMap{ResourceList: corev1.ResourceList{
+						corev1.ResourceCPU:    *resource.NewMilliQuantity(cpu, resource.DecimalSI),
+						corev1.ResourceMemory: *resource.NewQuantity(mem, resource.BinarySI),
+					}},
+				})
+			}
+			nm.Status.PodsMetric = append(nm.Status.PodsMetric, own...)
 			switch fresh {
 			case 1:
 				lister.m[name] = nm
@@ -313,26 +402,33 @@ func vtC18Score(u, cap [3]int64, w [3]int64, cpuActive bool) int64 {
 	return s / ws
 }
 
-func vtC18Gen(r *rand.Rand, i int) (string, []int64) {
-	style := []string{"abs", "abs", "abs", "dev", "dev", "anom", "anom", "anom", "degenerate"}[r.Intn(9)]
-	dev := style == "dev" || (style != "abs" && r.Intn(3) == 0)
-	anom := style == "anom" || r.Intn(4) == 0
-	n := 2 + r.Intn(5)
-	if style == "degenerate" {
-		n = r.Intn(4)
-	}
-	cpuActive := r.Intn(7) != 0
+// one generated node pool
+type vtC18Pool struct {
+	sel, dev, anom, k, kn int64
+	thr                   [3][4]int64
+	w                     [3]int64
+	cpuActive             bool
+}
+
+// shapes that run into the known findings of C18 (see coq/C18/Extract.v finding_sig 2 and 3) are
+// generated only when the findings are listed in known_findings.txt: a later pool with a nil
+// selector or prod thresholds in overlapping pools (sig 2), the anomaly gate in overlapping pools (sig 3)
+var vtC18KnownFindings = os.Getenv("VERIF_C18_FINDINGS") == "1"
+
+func vtC18GenPool(r *rand.Rand, style string, dev, anom, prodOK bool) vtC18Pool {
+	var p vtC18Pool
+	p.dev, p.anom = vtB(dev), vtB(anom)
+	p.cpuActive = r.Intn(7) != 0
 	podsActive := r.Intn(5) == 0
 	pct := func(lo, hi int) int64 { return int64(lo + r.Intn(hi-lo+1)) }
-	var thr [3][4]int64
 	for d := 0; d < 3; d++ {
-		thr[d] = [4]int64{-1, -1, -1, -1}
-		act := d == 1 || (d == 0 && cpuActive) || (d == 2 && podsActive)
+		p.thr[d] = [4]int64{-1, -1, -1, -1}
+		act := d == 1 || (d == 0 && p.cpuActive) || (d == 2 && podsActive)
 		if !act {
 			continue
 		}
 		havePair := d != 1 || r.Intn(6) != 0
-		haveProd := r.Intn(2) == 0
+		haveProd := r.Intn(2) == 0 && prodOK
 		if !havePair && !haveProd && d != 1 {
 			havePair = true
 		}
@@ -357,7 +453,7 @@ func vtC18Gen(r *rand.Rand, i int) (string, []int64) {
 					h = l
 				}
 			}
-			thr[d][0], thr[d][1] = l, h
+			p.thr[d][0], p.thr[d][1] = l, h
 		}
 		if haveProd {
 			var pl, ph int64
@@ -377,27 +473,102 @@ func vtC18Gen(r *rand.Rand, i int) (string, []int64) {
 				}
 				pl = pct(0, int(ph))
 			}
-			thr[d][2], thr[d][3] = pl, ph
+			p.thr[d][2], p.thr[d][3] = pl, ph
 		}
 	}
-	var w [3]int64
-	w[0], w[1] = int64(r.Intn(4)), int64(r.Intn(4))
+	p.w[0], p.w[1] = int64(r.Intn(4)), int64(r.Intn(4))
 	if r.Intn(4) == 0 {
-		w[2] = int64(r.Intn(3))
+		p.w[2] = int64(r.Intn(3))
 	}
-	if w[0] == 0 && w[1] == 0 {
-		w[1] = 1
+	if p.w[0] == 0 && p.w[1] == 0 {
+		p.w[1] = 1
 	}
+	if anom {
+		p.k, p.kn = int64(1+r.Intn(3)), int64(1+r.Intn(2))
+	}
+	return p
+}
+
+func vtC18Gen(r *rand.Rand, i int) (string, []int64) {
+	style := []string{"abs", "abs", "abs", "dev", "dev", "anom", "anom", "anom", "degenerate"}[r.Intn(9)]
+	dev := style == "dev" || (style != "abs" && r.Intn(3) == 0)
+	anom := style == "anom" || r.Intn(4) == 0
+	n := 2 + r.Intn(5)
+	if style == "degenerate" {
+		n = r.Intn(4)
+	}
+	// pool layout: one pool; several pools with pairwise disjoint selectors; several pools that overlap
+	// (a specific pool first, a catch-all pool later)
+	layout := []string{"single", "single", "single", "single", "single", "disjoint", "disjoint", "overlap", "overlap", "overlap"}[r.Intn(10)]
+	var sels []int64
+	switch layout {
+	case "single":
+		if r.Intn(3) == 0 {
+			sels = []int64{[]int64{2, 2, 2, 3, 4, 5, 6, 7, 8, 1, 9}[r.Intn(11)]}
+		} else {
+			sels = []int64{0}
+		}
+	case "disjoint":
+		sels = [][]int64{{2, 3}, {3, 5}, {5, 3, 8}, {8, 2, 3}, {4, 8}, {2, 7}, {7, 5}}[r.Intn(7)]
+	default:
+		first := []int64{2, 3, 4, 5, 6, 7, 8}[r.Intn(7)]
+		if r.Intn(8) == 0 {
+			first = 0
+		}
+		later := []int64{1, 1, 9, 4, 6, 7, 1}
+		if vtC18KnownFindings {
+			later = []int64{1, 1, 9, 4, 6, 7, 0, 0}
+		}
+		sels = []int64{first, later[r.Intn(len(later))]}
+		if r.Intn(4) == 0 {
+			sels = append(sels, later[r.Intn(len(later))])
+		}
+		if r.Intn(5) == 0 {
+			// two specific pools, then the catch-all
+			sels = []int64{[]int64{2, 5}[r.Intn(2)], 3, later[r.Intn(len(later))]}
+		}
+	}
+	prodOK := layout != "overlap" || vtC18KnownFindings
+	if layout == "overlap" && !vtC18KnownFindings {
+		anom = false
+		if style == "anom" {
+			style = "abs"
+		}
+	}
+	pools := make([]vtC18Pool, len(sels))
+	for pi := range pools {
+		if pi > 0 && r.Intn(2) == 0 {
+			// same thresholds as the first pool: a node relieved there would still look overloaded here
+			pools[pi] = pools[0]
+			if r.Intn(3) == 0 {
+				pools[pi].w = vtC18GenPool(r, style, dev, anom, prodOK).w
+			}
+		} else {
+			pdev, panom := dev, anom
+			if pi > 0 {
+				if r.Intn(4) == 0 {
+					pdev = !pdev
+				}
+				if r.Intn(3) == 0 && (layout != "overlap" || vtC18KnownFindings) {
+					panom = !panom
+				}
+			}
+			pools[pi] = vtC18GenPool(r, style, pdev, panom, prodOK)
+		}
+		pools[pi].sel = sels[pi]
+	}
+	devData := false
+	anyAnom := false
+	for _, p := range pools {
+		devData = devData || p.dev != 0
+		anyAnom = anyAnom || p.anom != 0
+	}
+	thr := pools[0].thr
 	var numberOfNodes int64
 	if r.Intn(6) == 0 {
 		numberOfNodes = int64(r.Intn(3))
 	}
 	dry := vtB(r.Intn(25) == 0)
-	sel := vtB(r.Intn(3) == 0)
-	k, kn := int64(0), int64(0)
-	if anom {
-		k, kn = int64(1+r.Intn(3)), int64(1+r.Intn(2))
-	}
 	// NodeFit reserves capacity on the first fitting target in map-iteration order: only
 	// generated where at most one node can be a target (two nodes, or one schedulable node)
 	fit := vtB(r.Intn(4) == 0)
@@ -409,18 +580,23 @@ func vtC18Gen(r *rand.Rand, i int) (string, []int64) {
 			only = r.Intn(n)
 		}
 	}
-	in := []int64{numberOfNodes, dry, fit, sel, vtB(dev), vtB(anom), k, kn}
-	for d := 0; d < 3; d++ {
-		in = append(in, thr[d][:]...)
+	paused := vtB(r.Intn(40) == 0)
+	in := []int64{numberOfNodes, dry, fit, paused, int64(len(pools))}
+	for _, p := range pools {
+		in = append(in, p.sel, p.dev, p.anom, p.k, p.kn)
+		for d := 0; d < 3; d++ {
+			in = append(in, p.thr[d][:]...)
+		}
+		in = append(in, p.w[:]...)
 	}
-	in = append(in, w[:]...)
 	in = append(in, int64(n))
 	caps := make([][3]int64, n)
+	labels := make([]int64, n)
 	for j := 0; j < n; j++ {
 		capc := int64(4000) << uint(r.Intn(5))
 		capm := int64(1) << uint(33+r.Intn(4))
 		capp := []int64{64, 128}[r.Intn(2)]
-		if !dev && r.Intn(3) == 0 {
+		if !devData && r.Intn(3) == 0 {
 			capc = 1000 * int64(1+r.Intn(96))
 			capm = int64(1<<30) * int64(1+r.Intn(200))
 			if r.Intn(3) == 0 {
@@ -440,14 +616,39 @@ func vtC18Gen(r *rand.Rand, i int) (string, []int64) {
 			}
 		}
 		caps[j] = [3]int64{capc, capm, capp}
-		member := int64(1)
-		if sel != 0 && r.Intn(4) == 0 {
-			member = 0
+		// labels: mostly such that the first pool's selector matches
+		label := int64(r.Intn(3))
+		if r.Intn(4) != 0 {
+			for l := int64(0); l < 3; l++ {
+				if vtC18SelMatch(sels[0], l) && (l != 0 || r.Intn(2) == 0) {
+					label = l
+					break
+				}
+			}
 		}
-		in = append(in, capc, capm, capp, member)
+		if layout == "disjoint" && r.Intn(3) != 0 {
+			label = int64(1 + r.Intn(2))
+		}
+		labels[j] = label
+		// raw-allocatable annotation: [caps] stay the capacities that count; status.allocatable is the amplified figure
+		rawk, rawc, rawm, rawp := int64(0), int64(0), int64(0), int64(0)
+		switch r.Intn(12) {
+		case 0, 1:
+			rawk, rawc, rawm, rawp = 1, capc, capm, capp
+			capc, capm, capp = capc*2, capm+capm/2, capp*2
+		case 2:
+			if style == "degenerate" || r.Intn(4) == 0 {
+				rawk, rawc = 2, capc
+				caps[j] = [3]int64{capc, 0, 0}
+				capc = capc * 2
+			}
+		case 3:
+			rawk, rawc, rawm, rawp = 3, capc/2, capm/2, capp/2
+		}
+		in = append(in, capc, capm, capp, label, rawk, rawc, rawm, rawp)
 	}
 	rounds := 1 + r.Intn(4)
-	if anom {
+	if anyAnom {
 		rounds = 3 + r.Intn(5)
 	}
 	in = append(in, int64(rounds))
@@ -460,8 +661,11 @@ func vtC18Gen(r *rand.Rand, i int) (string, []int64) {
 	for rd := 0; rd < rounds; rd++ {
 		for try := 0; ; try++ {
 			var enc []int64
-			scores := map[int64]bool{}
-			pscores := map[int64]bool{}
+			scores := make([]map[int64]bool, len(pools))
+			pscores := make([]map[int64]bool, len(pools))
+			for pi := range pools {
+				scores[pi], pscores[pi] = map[int64]bool{}, map[int64]bool{}
+			}
 			ok := true
 			savedID := podID
 			for j := 0; j < n; j++ {
@@ -477,7 +681,7 @@ func vtC18Gen(r *rand.Rand, i int) (string, []int64) {
 					fresh = []int64{0, 2, 3, 4}[r.Intn(4)]
 				}
 				unitc, unitm := int64(1), int64(1)
-				if dev {
+				if devData {
 					unitc, unitm = 125, caps[j][1]>>10
 					if unitm == 0 {
 						unitm = 1
@@ -562,7 +766,31 @@ func vtC18Gen(r *rand.Rand, i int) (string, []int64) {
 						}
 					}
 				}
-				if !dev && r.Intn(8) == 0 {
+				// stale entries of pods that left the node, second entries for a pod that is on it
+				var extras []int64
+				if r.Intn(5) == 0 {
+					for q := 1 + r.Intn(2); q > 0; q-- {
+						xc := int64(float64(totc)*0.1*r.Float64()) / unitc * unitc
+						xm := int64(float64(totm)*0.1*r.Float64()) / unitm * unitm
+						if np > 0 && r.Intn(2) == 0 {
+							if p := pods[r.Intn(np)]; p.met != 0 {
+								extras = append(extras, p.ns, p.id, xc, xm)
+								u[0] += xc
+								u[1] += xm
+								if p.prio >= int64(extension.PriorityProdValueMin) && p.prio <= int64(extension.PriorityProdValueMax) {
+									pu[0] += xc
+									pu[1] += xm
+								}
+								continue
+							}
+						}
+						podID++
+						extras = append(extras, int64(r.Intn(4)), podID, xc, xm)
+						u[0] += xc
+						u[1] += xm
+					}
+				}
+				if !devData && r.Intn(8) == 0 {
 					// usage exactly at / one above a memory threshold
 					pc := []int64{thr[1][0], thr[1][1]}[r.Intn(2)]
 					if pc == -1 {
@@ -575,25 +803,34 @@ func vtC18Gen(r *rand.Rand, i int) (string, []int64) {
 					}
 				}
 				if fresh == 1 {
-					if u[0] != 0 || u[1] != 0 || u[2] != 0 {
-						s := vtC18Score(u, caps[j], w, cpuActive)
-						if scores[s] {
-							ok = false
+					// the order of equally scored source nodes is left to sort.Slice: keep the scores of
+					// the nodes a pool may look at pairwise distinct, under that pool's weights
+					for pi, pool := range pools {
+						if !vtC18SelMatch(pool.sel, labels[j]) {
+							continue
 						}
-						scores[s] = true
-					}
-					if pu[0] != 0 || pu[1] != 0 || pu[2] != 0 {
-						s := vtC18Score(pu, caps[j], w, cpuActive)
-						if pscores[s] {
-							ok = false
+						if u[0] != 0 || u[1] != 0 || u[2] != 0 {
+							s := vtC18Score(u, caps[j], pool.w, pool.cpuActive)
+							if scores[pi][s] {
+								ok = false
+							}
+							scores[pi][s] = true
 						}
-						pscores[s] = true
+						if pu[0] != 0 || pu[1] != 0 || pu[2] != 0 {
+							s := vtC18Score(pu, caps[j], pool.w, pool.cpuActive)
+							if pscores[pi][s] {
+								ok = false
+							}
+							pscores[pi][s] = true
+						}
 					}
 				}
 				enc = append(enc, unsched, fresh, sysc, sysm, int64(np))
 				for _, p := range pods {
 					enc = append(enc, p.id, p.ns, p.prio, p.met, p.cpu, p.mem, p.filt, p.evok)
 				}
+				enc = append(enc, int64(len(extras)/4))
+				enc = append(enc, extras...)
 			}
 			if ok {
 				in = append(in, enc...)
@@ -603,14 +840,17 @@ func vtC18Gen(r *rand.Rand, i int) (string, []int64) {
 		}
 	}
 	label := style
+	if layout != "single" {
+		label += fmt.Sprintf("+%s%d", layout, len(pools))
+	}
 	if fit != 0 {
 		label += "+fit"
 	}
-	if dev {
+	if devData {
 		label += "+dev"
 	}
-	if anom {
-		label += fmt.Sprintf("+k%d", k)
+	if anyAnom {
+		label += fmt.Sprintf("+k%d", pools[0].k)
 	}
 	return label, in
 }
